@@ -125,11 +125,22 @@ func (c *Check) Spec(rule string, m Macros, s FnSpec) {
 			if r.Index >= len(ret.Results) {
 				continue
 			}
-			got := fa.X.E(RetVal(ret, r.Index)).String()
+			gotE := fa.X.E(RetVal(ret, r.Index))
+			got := gotE.String()
 			ok := false
 			for _, w := range r.Want {
 				if m.X(w) == got {
 					ok = true
+				}
+			}
+			if !ok {
+				if ex := c.expandConstructor(gotE); ex != nil {
+					for _, w := range r.Want {
+						if m.X(w) == ex.String() {
+							ok = true
+							got = ex.String()
+						}
+					}
 				}
 			}
 			if !ok && got == "nil" && r.Index == len(ret.Results)-1 && fa.resultKind() == "error" {
@@ -149,6 +160,11 @@ func (c *Check) Spec(rule string, m Macros, s FnSpec) {
 			c.Bad(rule, funcName(fn)+"/return:"+r.Label, fn.Pos(), "no non-rejecting return")
 		}
 	}
+	raFound := map[string]bool{}
+	raCount := map[string]int{}
+	for _, ra := range s.RetAts {
+		raCount[ra.Label]++
+	}
 	for _, ra := range s.RetAts {
 		found := false
 		for _, b := range fn.Blocks {
@@ -167,8 +183,16 @@ func (c *Check) Spec(rule string, m Macros, s FnSpec) {
 				}
 			}
 		}
-		if !found {
+		if found {
+			raFound[ra.Label] = true
+		}
+		if !found && raCount[ra.Label] == 1 {
 			c.Bad(rule, funcName(fn)+"/returns:"+ra.Label, fn.Pos(), "no return yields "+m.Fold(ra.Want)+" as result "+fmt.Sprint(ra.Index))
+		}
+	}
+	for lab, n := range raCount {
+		if n > 1 && !raFound[lab] { // several accepted forms of one value: at least one must be returned
+			c.Bad(rule, funcName(fn)+"/returns:"+lab, fn.Pos(), "no return yields any of the accepted forms as result")
 		}
 	}
 	for _, st := range s.Stores {
